@@ -57,6 +57,7 @@ FIELD_INFO = {
     "total": {"att": "total", "name": "total", "keys": ["total"], "type": "int"},
     "w":     {"att": "w", "name": "w", "keys": ["w"], "type": "posint"},
     "w2":    {"att": "w2", "name": "w2", "keys": ["w2"], "type": "int"},
+    "hsum":  {"att": "hsum", "name": "hsum", "keys": ["hsum"], "type": "int"},
 }
 ORDER = ["req", "opt", "its", "pos", "fin", "ali", "hid", "lf", "mreq", "exo", "total", "w"]
 
@@ -105,6 +106,10 @@ def source(plan):
     if "total" in fs:
         L += ["    @property", "    @Field(dependencies=['req', 'pos'])", "    def total(self) -> int:",
               "        return self.req * 10 + self.pos"]
+    if "hid" in fs and plan["base"] == "schema" and plan.get("hsum"):
+        # a property that depends on a field which is kept out of the key view
+        L += ["    @property", "    @Field(dependencies=['hid'])", "    def hsum(self) -> int:",
+              "        return self.hid + 100"]
     if "w" in fs:
         L += ["    _w = 0", "    @property", "    def w(self) -> int:", "        return self._w",
               "    @w.setter", "    def w(self, v: int = Field(ge=0, required=False)):",
@@ -174,6 +179,7 @@ def generate(rng, tier):
     plan = {"prop": ID, "base": base, "fields": fs, "ci": rng.random() < 0.4,
             "options": {}, "inherit": rng.random() < 0.3, "mode": None}
     plan["fin_final"] = rng.random() < 0.4
+    plan["hsum"] = "hid" in fs and base == "schema" and rng.random() < 0.6
     if "mreq" in fs:
         plan["mode"] = rng.choice([None, "class", "runtime"]) if base == "schema" else rng.choice([None, "class"])
     o = plan["options"]
@@ -319,7 +325,7 @@ def read_attr(inst, att):
     except AttributeError:
         return _MISSING
     except Exception:  # noqa  a property body computing over already-broken data; the broken field itself is reported
-        if att in ("total", "w", "w2"):
+        if att in ("total", "w", "w2", "hsum"):
             return _MISSING
         raise
 
@@ -333,7 +339,7 @@ class View:
         self.extra = {}
         is_schema = plan["base"] == "schema"
         names = {}
-        all_kinds = list(plan["fields"]) + (["w2"] if "w" in plan["fields"] else [])
+        all_kinds = list(plan["fields"]) + (["w2"] if "w" in plan["fields"] else []) + (["hsum"] if plan.get("hsum") else [])
         for k in all_kinds:
             names[FIELD_INFO[k]["name"]] = k
         if is_schema:
@@ -363,7 +369,7 @@ def check_invariants(plan, inst, initial, res, opname, field, current=True):
     v = View(plan, inst)
     fs = plan["fields"]
     is_schema = plan["base"] == "schema"
-    props = {"total", "w", "w2"}
+    props = {"total", "w", "w2", "hsum"}
     # I1 conformance of every present field, in both views
     for k, val in v.keys.items():
         if not conforms(k, val):
@@ -386,7 +392,7 @@ def check_invariants(plan, inst, initial, res, opname, field, current=True):
             out.append(("I3", "class", "instance of an immutable class changed"))
     # I4 key view and attribute view agree
     if is_schema:
-        for k in list(fs) + (["w2"] if "w" in fs else []):
+        for k in list(fs) + (["w2"] if "w" in fs else []) + (["hsum"] if plan.get("hsum") else []):
             if k == "hid":
                 if "hid" in v.keys:
                     out.append(("I4", k, "no_output field present in the key view"))
@@ -410,6 +416,9 @@ def check_invariants(plan, inst, initial, res, opname, field, current=True):
             want = v.keys["req"] * 10 + v.keys["pos"]
             if v.attrs.get("total", want) != want:
                 out.append(("I5", "total", f"total={v.attrs.get('total')!r} but req*10+pos={want!r}"))
+    if plan.get("hsum") and is_schema and "hid" in v.attrs and conforms("hid", v.attrs["hid"]):
+        if "hsum" in v.keys and v.keys["hsum"] != v.attrs["hid"] + 100:
+            out.append(("I5", "hsum", f"hsum={v.keys['hsum']!r} but hid={v.attrs['hid']!r}"))
     if "w" in fs and is_schema:
         if "w" in v.keys and "w2" in v.keys and conforms("w", v.keys["w"]) and v.keys["w2"] != v.keys["w"] * 2:
             out.append(("I5", "w2", f"w2={v.keys['w2']!r} but w={v.keys['w']!r}"))
